@@ -304,7 +304,7 @@ func genForm(r *rand.Rand, odd bool) []string {
 		lines[i] = sb.String()
 	}
 	if odd {
-		switch r.IntN(5) {
+		switch r.IntN(4) {
 		case 0: // leading blanks on the first line
 			lines[0] = "  " + lines[0]
 		case 1: // trailing blanks on the last line
@@ -318,6 +318,19 @@ func genForm(r *rand.Rand, odd bool) []string {
 			if 2 < n {
 				lines[1] = ""
 			}
+		}
+	}
+	if 1 < n && r.IntN(3) == 0 {
+		// a line comment on a line that is not the last one of the form (what a
+		// stashed or recalled definition usually has)
+		k := r.IntN(n - 1)
+		switch r.IntN(3) {
+		case 0:
+			lines[k] += " ; note"
+		case 1:
+			lines[k] += " ;; closes ) and \"opens"
+		default:
+			lines = append(lines[:k+1], append([]string{"  ;; a line of its own"}, lines[k+1:]...)...)
 		}
 	}
 	return lines
@@ -359,7 +372,7 @@ func genOps(r *rand.Rand, n int, limit int, oddPct int, withClear bool) []Op {
 			}
 			ops = append(ops, Op{Kind: "limit", A: nl})
 		case k < 88:
-			ops = append(ops, Op{Kind: "sadd", Form: genForm(r, false)})
+			ops = append(ops, Op{Kind: "sadd", Form: genForm(r, r.IntN(100) < oddPct)})
 		case k < 91 && withClear:
 			a, b := 0, -1
 			if r.IntN(2) == 0 {
@@ -393,6 +406,40 @@ func gen(r *rand.Rand, i int, tier string) Case {
 	c := Case{Limit: 4 + r.IntN(8)}
 	if i%3 == 0 {
 		c.Limit = 10 + r.IntN(15) // limits where the 110% threshold leaves room between compactions
+	}
+	if i%16 == 0 {
+		// stash-editing scenario: definitions (mostly multi-line, many with inner
+		// line comments) are stashed, a later session removes some of them with a
+		// partial clear - which rewrites the file in the one-line-per-form
+		// encoding - and stashes more, so that following restarts load a file that
+		// mixes both encodings.
+		multi := func() []string {
+			for {
+				if f := genForm(r, false); 1 < len(f) || r.IntN(3) == 0 {
+					return f
+				}
+			}
+		}
+		sadds := func(n int) []Op {
+			var ops []Op
+			for k := 0; k < n; k++ {
+				ops = append(ops, Op{Kind: "sadd", Form: multi()})
+				if r.IntN(3) == 0 {
+					ops = append(ops, Op{Kind: "add", Form: genForm(r, false)})
+				}
+			}
+			return ops
+		}
+		partial := func() Op {
+			a := r.IntN(3)
+			return Op{Kind: "sclear", A: a, B: a + r.IntN(2), Via: []string{"", "lisp"}[r.IntN(2)]}
+		}
+		c.Sessions = append(c.Sessions, sadds(4+r.IntN(4)))
+		c.Sessions = append(c.Sessions, append([]Op{partial()}, sadds(r.IntN(3))...))
+		c.Sessions = append(c.Sessions, sadds(1+r.IntN(3)))
+		c.Sessions = append(c.Sessions, append(append(sadds(r.IntN(2)), partial()), Op{Kind: "add", Form: genForm(r, false)}))
+		c.Sessions = append(c.Sessions, sadds(1))
+		return c
 	}
 	if i%8 == 4 {
 		// limit-change scenario: a long history under a generous limit, then the
@@ -433,7 +480,7 @@ func gen(r *rand.Rand, i int, tier string) Case {
 	if i%8 == 6 || i%8 == 2 { // the "dirty" minority (restart-only cases) keeps the constructs with listed findings
 		odd = 30
 	}
-	withClear := i%4 >= 2 || i%8 == 5
+	withClear := i%4 >= 2 || i%8 == 5 || i%16 == 8
 	total := 20 + r.IntN(41) // <= 60 ops
 	if crash {
 		total = 14 + r.IntN(14)
@@ -582,6 +629,21 @@ func isView(got [][]string, m *model) (bool, string) {
 	return true, ""
 }
 
+// formMismatch names the way a loaded form differs from the entered one when it
+// is one of the listed encoding losses, "" otherwise.
+func formMismatch(got, want []string) string {
+	join := func(f []string, sep string) string { return strings.Join(f, sep) }
+	switch {
+	case strings.Contains(join(want, "\n"), "\t") && join(got, "\t") == join(want, "\t"):
+		return "tab-in-line"
+	case strings.TrimSpace(join(got, "\n")) == strings.TrimSpace(join(want, "\n")):
+		return "blank-trim"
+	case strings.ReplaceAll(join(got, "\n"), "\n\n", "\n") == strings.ReplaceAll(join(want, "\n"), "\n\n", "\n"):
+		return "empty-line"
+	}
+	return ""
+}
+
 // mismatchKind classifies why a loaded history is not a view, for the signature.
 func mismatchKind(got, live [][]string) string {
 	if len(got) <= len(live) {
@@ -590,15 +652,8 @@ func mismatchKind(got, live [][]string) string {
 			if eqForm(got[i], live[off+i]) {
 				continue
 			}
-			want := live[off+i]
-			join := func(f []string, sep string) string { return strings.Join(f, sep) }
-			switch {
-			case strings.Contains(join(want, "\n"), "\t") && join(got[i], "\t") == join(want, "\t"):
-				return "tab-in-line"
-			case strings.TrimSpace(join(got[i], "\n")) == strings.TrimSpace(join(want, "\n")):
-				return "blank-trim"
-			case strings.ReplaceAll(join(got[i], "\n"), "\n\n", "\n") == strings.ReplaceAll(join(want, "\n"), "\n\n", "\n"):
-				return "empty-line"
+			if k := formMismatch(got[i], live[off+i]); k != "" {
+				return k
 			}
 			break
 		}
@@ -800,7 +855,11 @@ func execCase(x *fw.Ctx, c Case) {
 		} else {
 			for i := range m.stash {
 				if !eqForm(so.Stash[i], m.stash[i]) {
-					rn.fail(sigPrefix+" what=stash fail=content", "%s: stash form %d is %q, stashed %q", stage, i, so.Stash[i], m.stash[i])
+					kind := formMismatch(so.Stash[i], m.stash[i])
+					if kind == "" {
+						kind = "content"
+					}
+					rn.fail(sigPrefix+" what=stash fail="+kind, "%s: stash form %d is %q, stashed %q", stage, i, so.Stash[i], m.stash[i])
 					ok = false
 					break
 				}
